@@ -116,8 +116,8 @@ func keyByID(id string) (*keyCtx, error) {
 	return nil, fmt.Errorf("bad key id %q", id)
 }
 
-func pow2(k uint) *big.Int { return new(big.Int).Lsh(big1, k) }
-func neg(x *big.Int) *big.Int { return new(big.Int).Neg(x) }
+func pow2(k uint) *big.Int              { return new(big.Int).Lsh(big1, k) }
+func neg(x *big.Int) *big.Int           { return new(big.Int).Neg(x) }
 func plus(x *big.Int, d int64) *big.Int { return new(big.Int).Add(x, big.NewInt(d)) }
 
 // seededUnit draws a unit of Z_N in [1, N).
@@ -178,9 +178,9 @@ func runProd(r *runner) {
 			}
 			r.count("prod-enc-sampled", false)
 			r.report(k.encSampledCase(m, seed))
-			if m.Cmp(half) == 0 {
-				r.sample("prod-enc", map[string]interface{}{"part": "enc", "key": name, "m": "(N-1)/2", "nonces": len(nonces), "N_bits": rk.N.BitLen()})
-			}
+			r.sample("prod-enc", func() interface{} {
+				return map[string]interface{}{"part": "enc", "key": name, "m": short(m), "nonces": len(nonces), "N_bits": rk.N.BitLen(), "pk_variants": variants}
+			})
 		}
 		// (b) refusal just outside the range and far outside
 		if r.mine(name + "|refuse") {
